@@ -215,7 +215,9 @@ func ExplainGpos(fontInfo *sfnt.Font) []string {
 
 			case *gtab.Gpos2_2:
 				checkType(2)
-				ee.w.WriteString("\n\t")
+				if i == 0 {
+					ee.w.WriteString("\n\t")
+				}
 				ee.w.WriteRune('/')
 				ee.writeGlyphList(l.Cov.Glyphs())
 				ee.w.WriteRune('/')
@@ -270,9 +272,15 @@ func ExplainGpos(fontInfo *sfnt.Font) []string {
 
 			case *gtab.Gpos4_1:
 				checkType(4)
+				// After "||" we are already at the start of a fresh line.
+				lineStart := "\n\t"
+				if i > 0 {
+					lineStart = ""
+				}
 				markGlyphs := l.MarkCov.Glyphs()
 				for i, gid := range markGlyphs {
-					ee.w.WriteString("\n\tmark ")
+					ee.w.WriteString(lineStart + "mark ")
+					lineStart = "\n\t"
 					ee.writeGlyph(gid)
 					ee.w.WriteRune(':')
 					rec := l.MarkArray[i]
@@ -282,7 +290,8 @@ func ExplainGpos(fontInfo *sfnt.Font) []string {
 
 				baseGlyphs := l.BaseCov.Glyphs()
 				for i, gid := range baseGlyphs {
-					ee.w.WriteString("\n\tbase ")
+					ee.w.WriteString(lineStart + "base ")
+					lineStart = "\n\t"
 					ee.writeGlyph(gid)
 					ee.w.WriteRune(':')
 					anchors := l.BaseArray[i]
